@@ -23,6 +23,8 @@ ASSUMPTIONS = [
   "source and re-read documents are both viewed through the reference ISD (vt/ref/isd.py): same regions/elements/text/computed styles at "
   "every boundary instant (representable mode), numeric tolerance 1e-5 relative (the writer prints %g)",
   "GenericFontFamilyType.default is equivalent to monospaceSerif (IMSC)",
+  "animation steps whose value is TextDecorationType(None, None, None) are not generated: the value has no TTML syntax (found by the thorough tier "
+  "after the reader stopped accepting tts:textDecoration=\"\")",
   "elements with begin == end are legitimately pruned by the reader: excluded from the id-preservation clause",
   "pixel resolution compared only when a px length is used; numeric style values that are neither int nor finite float are not generated",
   "documented configuration ValueErrors (frames syntaxes without fps, HH:MM:SS:FF with non-integer fps) are not failures",
@@ -388,6 +390,15 @@ def check(ctx, adoc0, cfg_name, fps, mode, classes=()):
     ctx.nontriv(("rt", payload["doc"], cfg_name, str(fps)))
 
 
+def no_empty_decoration_steps(adoc):
+  """TextDecorationType(None, None, None) has no TTML syntax (tts:textDecoration needs at least one token): as a specified value it is
+  equivalent to no attribute, but as the value of an animation step it would have to override the specified value with 'nothing'.
+  Such steps are outside what IMSC can represent and are not generated."""
+  for root in list(adoc.regions) + ([adoc.body] if adoc.body else []):
+    for el in root.walk():
+      el.anims = [a for a in el.anims if not (a[0] == "TextDecoration" and a[3][0] == "D" and all(v is None for _k, v in a[3][2]))]
+
+
 def run(ctx, params):
   for i in range(params["n"]):
     rng = ctx.rng("doc", params["shard"], i)
@@ -400,6 +411,7 @@ def run(ctx, params):
     if mode == "representable":
       snap_times(adoc0, unit_of(cfg_name, fps))
     no_zero_length_ruby_parts(adoc0)
+    no_empty_decoration_steps(adoc0)
     if mode == "free" and adoc0.body is not None:
       # two distinct times of a ruby part may round to the same written value: the part then has an empty interval, is pruned
       # by the reader and breaks the ruby child pattern - inherent to rounding, so ruby parts are untimed in free mode
